@@ -137,7 +137,7 @@ pub fn fill_kind(kind: &str, w: &[f32], with_frags: bool) -> String {
 /// Screen-space triangle generator shared by C04/C05. Returns three (x, y) pairs and a mode tag.
 pub fn gen_tri_xy(rng: &mut Rng) -> ([(f32, f32); 3], &'static str) {
     let size = *rng.pick(&[4i64, 8, 16, 32]);
-    let mode = rng.below(13);
+    let mode = rng.below(14);
     let mut p = [(0f32, 0f32); 3];
     let tag;
     match mode {
@@ -208,6 +208,20 @@ pub fn gen_tri_xy(rng: &mut Rng) -> ([(f32, f32); 3], &'static str) {
             // long scanlines (up to 96 px) with few rows
             for q in p.iter_mut() {
                 *q = (rng.f32_in(0.0, 96.0), rng.f32_in(0.0, 6.0));
+            }
+        }
+        13 => {
+            tag = "centre-ulp";
+            // coordinates one or two ulps either side of a pixel centre, small indices first: where
+            // `x + 0.5` is inexact (0.5 - 2^-25 + 0.5 rounds up to 1.0) and centre tests flip
+            for q in p.iter_mut() {
+                let mut c = [0f32; 2];
+                for v in c.iter_mut() {
+                    let k = if rng.bool() { rng.range(0, 3) } else { rng.range(0, size) } as f32 + 0.5;
+                    let d = rng.range(-2, 3) as i32;
+                    *v = if rng.chance(1, 4) { rng.f32_in(0.0, size as f32) } else { f32::from_bits((k.to_bits() as i32 + d) as u32) };
+                }
+                *q = (c[0], c[1]);
             }
         }
         8 => {
